@@ -933,6 +933,20 @@ func genC04(tier string, seed uint64) {
 			}
 		}
 	}
+	// telnet: option negotiation inside the stream (IAC WILL/DO/SB ... SE, escaped IAC): whatever the service makes of
+	// the bytes, it must make the same of them in every segmentation (outside the model's alphabet: oracle only)
+	{
+		b := []byte("root\r\n\xff\xfb\x18\xff\xfa\x18\x00xterm\xff\xf0toor\r\n\xff\xfd\x01uname -a\r\ncat /proc\xff\xfa\x1f\x00P\x00\x18\xff\xf0/cpuinfo\r\nls \xff\xff x\r\n")
+		runSeg("@seg", "telnet", [][]byte{b}, nil, false)
+		for c := 1; c < len(b); c++ {
+			runSeg("@seg", "telnet", cutAt(b, []int{c}), nil, false)
+		}
+		var cs []int
+		for i := 1; i < len(b); i++ {
+			cs = append(cs, i)
+		}
+		runSeg("@seg", "telnet", cutAt(b, cs), nil, false)
+	}
 	// ftp: command lines around and beyond the size of a line buffer (one command, one event, whatever its length)
 	for _, n := range []int{4093, 4094, 4095, 4096, 4097, 9000} {
 		long := "CWD " + strings.Repeat("p", n-4)
